@@ -12,12 +12,12 @@ open Grule
 /-- **C04 sequencing (under the side conditions).** Executing a `then` list with the working memory —
     memoised right-hand sides, memoised selector expressions, resets after every write — has exactly
     the result and the effect on the facts (and on Retract/Complete flags) of the memo-free fold. -/
-theorem C04_actions_sequential {c : Cfg} {T : Var → Prop} (hp : MethodsPure c) (hi : SnapInj) (hf : FrameHyp c T)
+theorem C04_actions_sequential {c : Cfg} {T : Var → Prop} (hp : MethodsPure c) (hfl : FloatPF) (hf : FrameHyp c T)
     (acts : List Action) (s : EState)
     (hw : ∀ a ∈ acts, wfAction a = true ∧ ∀ op t e, a = .assign op t e → T t) (hc : Coh c s) :
     (execActions c s 0 acts).1 = (specActions c s.vis acts).1 ∧
     (execActions c s 0 acts).2.vis = (specActions c s.vis acts).2 :=
-  let h := execActions_sound hp hi hf acts s 0 hw hc
+  let h := execActions_sound hp (snapInj_of hfl) hf acts s 0 hw hc
   ⟨h.val, h.vis⟩
 
 /-- the first failing action stops the list and keeps what the completed actions did -/
